@@ -313,7 +313,8 @@ class World:
         if not chunk:
             return False
         self.delivered[who] += len(chunk)
-        self.trace.append({"k": "deliver", "c": who, "all": self.delivered[who] == self.produced[who]})
+        part = bool(self.items[who]) and self.items[who][0][2] > 0
+        self.trace.append({"k": "deliver", "c": who, "all": self.delivered[who] == self.produced[who], "part": part})
         self.feed(self.events.DataReceived(self.conns[who], chunk))
         return True
 
